@@ -37,7 +37,10 @@ def parse(data, allow_custom=False, interoperability=False, version=None):
     obj = _get_dict(data)
 
     # convert dict to full python-stix2 obj
-    obj = dict_to_stix2(obj, allow_custom, interoperability, version)
+    try:
+        obj = dict_to_stix2(obj, allow_custom, interoperability, version)
+    except RecursionError:
+        raise ParseError("Can't parse data that is nested too deeply")
 
     return obj
 
@@ -134,18 +137,21 @@ def parse_observable(data, _valid_refs=None, allow_custom=False, interoperabilit
     """
     obj = _get_dict(data)
 
-    if 'type' not in obj:
-        raise ParseError("Can't parse observable with no 'type' property: %s" % str(obj))
+    try:
+        if 'type' not in obj:
+            raise ParseError("Can't parse observable with no 'type' property: %s" % str(obj))
 
-    # get deep copy since we are going modify the dict and might
-    # modify the original dict as _get_dict() does not return new
-    # dict when passed a dict
-    obj = copy.deepcopy(obj)
+        # get deep copy since we are going modify the dict and might
+        # modify the original dict as _get_dict() does not return new
+        # dict when passed a dict
+        obj = copy.deepcopy(obj)
 
-    obj['_valid_refs'] = _valid_refs or []
+        obj['_valid_refs'] = _valid_refs or []
 
-    if not version:
-        version = detect_spec_version(obj)
+        if not version:
+            version = detect_spec_version(obj)
+    except RecursionError:
+        raise ParseError("Can't parse observable that is nested too deeply")
 
     obj_type = obj["type"]
     obj_class = registry.class_for_type(obj_type, version, "observables")
